@@ -7,6 +7,7 @@ log_prob of A and B bit for bit in eval mode.  Constructor randomness with a sma
 (random permutations, random MADE degrees, random binary masks) is enumerated through seams: ALL
 pairs of answers.
 """
+import copy
 import itertools
 from unittest import mock
 
@@ -75,6 +76,19 @@ def run_hist(m, hist, call_train):
         with torch.no_grad():
             call_train(m, step=False)
             call_train(m, step=False)
+
+
+
+def pristine(m):
+    """A stand-in for m to observe before loading: the vacuity guard (do A and B differ before the load?) must not itself
+    make calls on the model that is about to load -- "freshly constructed" means no call has been made on it, and a
+    pending first-call action (deferred initialisation) would otherwise be used up by the guard."""
+    try:
+        c = copy.deepcopy(m)
+    except Exception:
+        return None
+    c.eval()
+    return c
 
 
 def observe_transform(m, s, cfg, x, ctx):
@@ -175,7 +189,8 @@ def transform_case(sname, cfg, hist, seed, res=None):
         return vio, None
     A.eval()
     B.eval()
-    before = compare(observe_transform(A, s, cfg, x, ctx), observe_transform(B, s, cfg, x, ctx)) is not None
+    A0, B0 = pristine(A), pristine(B)
+    before = (A0 is None or B0 is None) or compare(observe_transform(A0, s, cfg, x, ctx), observe_transform(B0, s, cfg, x, ctx)) is not None
     sig = dev_signature(s, cfg)
     try:
         B.load_state_dict(A.state_dict(), strict=True)
@@ -244,7 +259,8 @@ def dist_case(dname, cfg, hist, seed, res=None):
                     o["transform_to_noise"] = ("raises", type(e).__name__)
         return o
 
-    before = compare(obs(A), obs(B)) is not None
+    A0, B0 = pristine(A), pristine(B)
+    before = (A0 is None or B0 is None) or compare(obs(A0), obs(B0)) is not None
     sig = DC.dev_signature(d, cfg)
     try:
         B.load_state_dict(A.state_dict(), strict=True)
@@ -354,7 +370,8 @@ def seam_case(case):
             y, ld = m(x)
             return {"forward": (y, ld), "inverse": m.inverse(y)}
 
-    before = compare(obs(A), obs(B)) is not None
+    A0, B0 = pristine(A), pristine(B)
+    before = (A0 is None or B0 is None) or compare(obs(A0), obs(B0)) is not None
     try:
         B.load_state_dict(A.state_dict(), strict=True)
     except Exception as e:
